@@ -246,6 +246,11 @@ def c03(tier, seed, work):
     tour_stage(rep, work, "single-after-multi-delete", "MC_List",
                list_consts(MaxSet=2, FsDomain=True, Delims={0, 47}, CfgName="single", MultiDead=True),
                ["singlemem", "singleos"], invariants=["EmitInv"], **common)
+    # listings of a versioned bucket in which keys are delete-marked (first, middle or last of their group)
+    tour_stage(rep, work, "versioned-delete-marked-keys", "MC_Store",
+               store_consts(Buckets={"bkt1"}, KeySetName="nest", CfgName="memenabled", Bodies={"x1"}, MaxVids=5, Ghosts=False,
+                            OpNames={"PutObject", "DeleteObject", "ListObjects"}),
+               ["mem"], small=True)
     # the Go API path: Backend.ListBucket called directly
     tour_stage(rep, work, "go-api-kv", "MC_List", list_consts(MaxSet=n), ["mem", "bolt"], invariants=["EmitInv"], addr="api", **common)
     tour_stage(rep, work, "go-api-fs", "MC_List", list_consts(MaxSet=n, FsDomain=True, Delims={0, 47}),
@@ -318,6 +323,11 @@ def c04(tier, seed, work):
     walk_stage(rep, work, "mem-dm-3k-walks", "MC_Store",
                store_consts(Buckets={"bkt1"}, KeySetName="nest", CfgName="memenabled", Bodies={"x1"},
                             MaxVids=5 if tier == "thorough" else 4, Ghosts=False,
+                            OpNames={"PutObject", "DeleteObject"}),
+               ["mem"], "objects", emit=None, invariants=["EmitState"])
+    # a group of three keys followed by a plain key, any of them delete-marked (a page that ends on the group's prefix)
+    walk_stage(rep, work, "mem-dm-group-walks", "MC_Store",
+               store_consts(Buckets={"bkt1"}, KeySetName="nest3", CfgName="memenabled", Bodies={"x1"}, MaxVids=5, Ghosts=False,
                             OpNames={"PutObject", "DeleteObject"}),
                ["mem"], "objects", emit=None, invariants=["EmitState"])
     rep.assumptions += [
@@ -403,6 +413,10 @@ def c06(tier, seed, work):
                    ["mem"], small=True, memtrace=True, **st)
     # beyond the small scope: one upload of 1003 parts (more than the listing page limit) completed with all of them
     conc_stage(rep, work, "scale-1003-parts", ["mem", "bolt", "multimem"], [1], runs=0, ops=0, keys=1, gated=False, big="multipart")
+    # uploads pending on one key whose server-issued ids straddle a change of length (9|10, 99|100), completed and
+    # aborted in between one another
+    conc_stage(rep, work, "upload-ids-across-a-length-boundary", ["mem", "bolt", "multimem"], [1], runs=0, ops=0, keys=2,
+               gated=False, big="idboundary")
     # with clocks that stand still (a re-uploaded part carries the same timestamp as the part it replaces)
     tour_stage(rep, work, "mp-fixed-clock", "MC_Store",
                store_consts(Buckets={"bkt1"}, KeySetName="a", Bodies={"x1"}, PartBodies={"p1", "p2"}, MaxUploads=1, MaxList=2,
